@@ -10,7 +10,27 @@ use in_toto::verif_hooks as h;
 
 pub const TARGETS: &[&str] = &["parse_metablock", "cjson", "keys", "pae", "attest"];
 
+struct Sink;
+
+impl log::Log for Sink {
+    fn enabled(&self, _: &log::Metadata) -> bool {
+        true
+    }
+    fn log(&self, record: &log::Record) {
+        std::hint::black_box(format!("{}", record.args()));
+    }
+    fn flush(&self) {}
+}
+
+static SINK: Sink = Sink;
+static LOGGING: std::sync::Once = std::sync::Once::new();
+
 pub fn run(target: &str, data: &[u8]) -> Result<(), String> {
+    // every log statement of the library gets its arguments evaluated (a sink at trace level)
+    LOGGING.call_once(|| {
+        let _ = log::set_logger(&SINK);
+        log::set_max_level(log::LevelFilter::Trace);
+    });
     match target {
         "parse_metablock" => parse_metablock(data),
         "cjson" => cjson(data),
